@@ -176,6 +176,70 @@ def decide(expr, verdict, bounds, st, label):
     return r, pt
 
 
+def traced_relational_error(m, kind, f, s, bounds, st, label):
+    """True iff, while the real comparator judges f again, sympy evaluates some relation `g >= 0` /
+    `g <= 0` inside _compare_to_zero to a Boolean that z3 refutes on the box (identification of the
+    known class `sympy-relational` by its mechanism, not by the shape of the formula)."""
+    import signal
+    import sys as _sys
+    rec = []
+    orig = {"__ge__": sympy.Expr.__ge__, "__le__": sympy.Expr.__le__}
+
+    def mk(name):
+        o = orig[name]
+
+        def w(self, other):
+            r = o(self, other)
+            try:
+                if _sys._getframe(1).f_code.co_name == "_compare_to_zero" and (r is sympy.true or r is sympy.false) and other == 0:
+                    rec.append((self, name, r is sympy.true))
+            except Exception:  # noqa
+                pass
+            return r
+        return w
+    sympy.Expr.__ge__, sympy.Expr.__le__ = mk("__ge__"), mk("__le__")
+    try:
+        clear_caches()
+        signal.alarm(20)
+        try:
+            m.geq_leq_zero(f, bounds) if kind == "formula" else m.diff_geq_leq_zero(f, s, bounds)
+        finally:
+            signal.alarm(0)
+    except Exception:  # noqa
+        pass
+    finally:
+        sympy.Expr.__ge__, sympy.Expr.__le__ = orig["__ge__"], orig["__le__"]
+        clear_caches()
+    for g, name, claimed in rec:
+        if not getattr(g, "free_symbols", None):
+            continue
+        # sympy claims (g >= 0) == claimed, resp. (g <= 0) == claimed, for ALL positive integers
+        if name == "__ge__":
+            verdict = "ALWAYS_GEQ_THAN_ZERO" if claimed else None
+        else:
+            verdict = "ALWAYS_LEQ_THAN_ZERO" if claimed else None
+        if verdict is None:
+            # a claimed `False` means "never >= 0" i.e. always < 0: refuted by a point with g >= 0
+            tr = Tr()
+            try:
+                t = tr(g)
+            except Unsupported:
+                continue
+            z = z3.Solver()
+            for sym, lo, hi in bounds:
+                v = tr.var(sym)
+                z.add(v >= lo, v <= hi)
+            z.add(tr.constraints())
+            z.add(t >= 0 if name == "__ge__" else t <= 0)
+            if z3_check(z, st, 20000) == "sat":
+                return True
+            continue
+        r, _ = decide(g, verdict, bounds, st, label)
+        if r == "sat":
+            return True
+    return False
+
+
 def evaluate(expr, point):
     e = expr.subs({s: sympy.Integer(point[s.name]) for s in expr.free_symbols})
     e = sympy.nsimplify(e) if e.is_number else e
@@ -256,6 +320,11 @@ def process(label, f, bounds, st, out_viol, out_known, out_exc):
                 wrong = (ge is sympy.true and val < 0) or (le is sympy.true and val > 0) or (ge is sympy.false and val >= 0) or (le is sympy.false and val <= 0)
             except TypeError:
                 wrong = False
+            if not wrong:
+                # the same mechanism deeper in the recursion (on a Heaviside partition, or on an end
+                # point returned by function_range): re-run the comparator with Expr.__ge__/__le__
+                # traced inside _compare_to_zero and let z3 judge every Boolean sympy returned there
+                wrong = traced_relational_error(m, kind, f, s, bounds, st, label)
             if wrong:
                 rec["key"] = "sympy-relational"
                 out_known.append(rec)
